@@ -7,6 +7,7 @@ package main
 import (
 	"context"
 	"crypto/x509"
+	"crypto/x509/pkix"
 	"errors"
 	"fmt"
 	"strings"
@@ -81,6 +82,9 @@ type c05Case struct {
 	Blob    bool `json:"via_verify_blob"` // this step goes through VerifyBlob under the blob statement of the SAME verifier (named like the OCI one)
 	Token   bool `json:"timestamp_token"` // the envelope carries a valid RFC 3161 countersignature (policy lists no tsa store)
 	Anchor  int  `json:"trust_anchor"`    // which certificate of the chain the trust store holds: 0 root, 1 middle, 2 leaf
+	// subjects of the chain: "" ordinary distinct CN=..; "e<k>" the certificate at position k (0 = leaf) has an EMPTY subject DN
+	// (Subject.String() == ""); "d<i><j>" the certificates at positions i and j carry the SAME subject
+	Shape string `json:"subject_shape,omitempty"`
 	// verification plugin: the envelope names plugin "c05plugin" in its critical extended attributes and the
 	// verifier's plugin manager has it installed with these capabilities (TI, Rev, Other); nil: no plugin named
 	PCaps  []string `json:"plugin_capabilities,omitempty"`
@@ -98,6 +102,32 @@ type c05Case struct {
 type c05Ann struct {
 	Method  int      `json:"method"`
 	Servers [][2]int `json:"servers"` // (method, 1 = Error != nil); method -1 = a nil *ServerResult in the slice
+}
+
+// c05ShapedChain mints a chain (leaf first) whose subjects follow shape: "e<k>" = empty subject DN (an empty
+// RDNSequence, legal X.509) at position k, "d<i><j>" = the same subject at positions i and j.
+func c05ShapedChain(prefix string, n int, shape string, nb, na time.Time) Chain {
+	chain := make(Chain, n)
+	for i := n - 1; i >= 0; i-- {
+		spec := CertSpec{Subject: Name(fmt.Sprintf("%s pos%d", prefix, i)), NotBefore: nb, NotAfter: na, IsCA: i > 0, Leaf: i == 0}
+		switch shape[0] {
+		case 'e':
+			if int(shape[1]-'0') == i {
+				spec.Subject = pkix.Name{}
+				spec.RawSubject = []byte{0x30, 0x00}
+			}
+		case 'd':
+			if int(shape[1]-'0') == i || int(shape[2]-'0') == i {
+				spec.Subject = Name(prefix + " twin")
+			}
+		}
+		var parent *Cert
+		if i < n-1 {
+			parent = chain[i+1]
+		}
+		chain[i] = Mint(spec, parent)
+	}
+	return chain
 }
 
 func c05SigningTime(format string, env []byte) int64 {
@@ -129,7 +159,7 @@ func runC05(a *Args) error {
 	rng := NewRng(a.Seed)
 	prelude := "From NV Require Import Base C05_Model.\nOpen Scope string_scope.\n"
 	w := NewCaseWriter(a, "C05", prelude, "xcase", "xrun")
-	w.Rule = "every result vector over {OK,NonRevokable,Unknown,Revoked}^n (n=1..4 exhaustively; thorough adds n=5,6 exhaustively and random n<=12 with out-of-range result values) x action x validator interface x scheme x envelope format x presence of a timestamp countersignature in the unsigned attributes x position of the trust anchor in the chain (root / middle / leaf held by the listed store), plus validator errors (alone, and together with a complete result vector), answers outside the one-result-per-certificate contract without error (fewer results than certificates incl. (nil,nil) and an empty slice, more results, nil entries at every position: all must be inconclusive, none may pass or panic - a panic of Verify is recovered and recorded as an observation), per-certificate method annotations and server results with/without errors and nil server-result entries (printed into the input term; must neither panic nor change the verdict), the signing time of the signed attributes against the time value the validator receives, the library-default validator, signatures naming a verification plugin x the capabilities the installed plugin advertises (none / trusted identity / revocation / both) x validator answers x action x interface (notation's own check iff the level does not skip revocation and the plugin does not own it; otherwise the validator is not consulted and the plugin's verdict decides), and histories of 2-4 verifications on one verifier instance while the validator's answer changes; run through the real verifier.Verify. non-trivial = revocation not skipped and (some certificate not OK, or a validator error); distinct = distinct (vector, action, validators, scheme, format, error) tuples"
+	w.Rule = "every result vector over {OK,NonRevokable,Unknown,Revoked}^n (n=1..4 exhaustively; thorough adds n=5,6 exhaustively and random n<=12 with out-of-range result values) x action x validator interface x scheme x envelope format x presence of a timestamp countersignature in the unsigned attributes x position of the trust anchor in the chain (root / middle / leaf held by the listed store), plus validator errors (alone, and together with a complete result vector), answers outside the one-result-per-certificate contract without error (fewer results than certificates incl. (nil,nil) and an empty slice, more results, nil entries at every position: all must be inconclusive, none may pass or panic - a panic of Verify is recovered and recorded as an observation), per-certificate method annotations and server results with/without errors and nil server-result entries (printed into the input term; must neither panic nor change the verdict), the signing time of the signed attributes against the time value the validator receives, the library-default validator, chains with an empty subject DN at each position and with two certificates of the same subject (the verdict must not rest on the subject text), signatures naming a verification plugin x the capabilities the installed plugin advertises (none / trusted identity / revocation / both) x validator answers x action x interface (notation's own check iff the level does not skip revocation and the plugin does not own it; otherwise the validator is not consulted and the plugin's verdict decides), and histories of 2-4 verifications on one verifier instance while the validator's answer changes; run through the real verifier.Verify. non-trivial = revocation not skipped and (some certificate not OK, or a validator error); distinct = distinct (vector, action, validators, scheme, format, error) tuples"
 	w.Assumptions = []string{
 		"the verifier whose two validator fields are both nil (x_val = 4 in the model) cannot be built through the public API and is not exercised",
 		"result classes are recognised from the error text of the revocation ValidationResult (\"is revoked\", \"revocation status is unknown\", \"unable to check revocation status\")",
@@ -141,13 +171,18 @@ func runC05(a *Args) error {
 	}
 	c05TSARoot = Mint(CertSpec{Subject: Name("c05 tsa root"), NotBefore: now.Add(-400 * time.Hour), NotAfter: now.Add(400 * time.Hour), IsCA: true}, nil)
 	c05TSALeaf = Mint(CertSpec{Subject: Name("c05 tsa leaf"), NotBefore: now.Add(-400 * time.Hour), NotAfter: now.Add(400 * time.Hour), TSA: true}, c05TSARoot)
-	envs := map[int]*c05Env{}
-	getEnv := func(n int) *c05Env {
-		if e, ok := envs[n]; ok {
+	envs := map[string]*c05Env{}
+	getEnv := func(n int, shape string) *c05Env {
+		ekey := fmt.Sprintf("%d|%s", n, shape)
+		if e, ok := envs[ekey]; ok {
 			return e
 		}
 		e := &c05Env{env: map[string][]byte{}, stime: map[string]int64{}}
-		e.chain = NewChain(fmt.Sprintf("c05n%d", n), n, now.Add(-48*time.Hour), now.Add(48*time.Hour))
+		if shape == "" {
+			e.chain = NewChain(fmt.Sprintf("c05n%d", n), n, now.Add(-48*time.Hour), now.Add(48*time.Hour))
+		} else {
+			e.chain = c05ShapedChain(fmt.Sprintf("c05n%d%s", n, shape), n, shape, now.Add(-48*time.Hour), now.Add(48*time.Hour))
+		}
 		e.desc = ocispec.Descriptor{MediaType: "application/vnd.oci.image.manifest.v1+json", Digest: digest.Digest(strings.TrimPrefix(TestRef, TestScope+"@")), Size: 528}
 		for _, f := range []string{MtJWS, MtCOSE} {
 			for _, sc := range []signature.SigningScheme{signature.SigningSchemeX509, signature.SigningSchemeX509SigningAuthority} {
@@ -200,7 +235,7 @@ func runC05(a *Args) error {
 				e.defRes = append(e.defRes, k)
 			}
 		}
-		envs[n] = e
+		envs[ekey] = e
 		return e
 	}
 
@@ -211,7 +246,7 @@ func runC05(a *Args) error {
 		if !w.Want(my) {
 			return
 		}
-		e := getEnv(c.N)
+		e := getEnv(c.N, c.Shape)
 		// policy: base level + override for revocation so that the action is c.Action
 		act := map[string]trustpolicy.ValidationAction{"Enforce": trustpolicy.ActionEnforce, "Log": trustpolicy.ActionLog, "Skip": trustpolicy.ActionSkip}[c.Action]
 		var override map[trustpolicy.ValidationType]trustpolicy.ValidationAction
@@ -458,7 +493,7 @@ func runC05(a *Args) error {
 		obs := CApp("mk_xobs", CList(callTerms), resTerm, CBool(c.Rejected), CBool(c.Panic != ""))
 		term := CApp("mk_xcase", CN(my), in, obs)
 		nontriv := c.Action != "Skip" && (c.VErr || hasNonOK(c.Vec) || !complete)
-		key := fmt.Sprintf("%v|%v|%v|%v|%v|%v|%v|%v|%v|%v|%v|%v", c.Vec, c.Action, c.Val, c.SA, c.Format, c.VErr, c.Level, c.Anchor, c.Step, c.Token, c.VErrRes, c.Blob) + fmt.Sprint(c.Ann, c.NilRes, c.Method, c.SrvErr, c.NilAt, c.Plugin, c.PCaps, c.PRevOK)
+		key := fmt.Sprintf("%v|%v|%v|%v|%v|%v|%v|%v|%v|%v|%v|%v", c.Vec, c.Action, c.Val, c.SA, c.Format, c.VErr, c.Level, c.Anchor, c.Step, c.Token, c.VErrRes, c.Blob) + fmt.Sprint(c.Ann, c.NilRes, c.Method, c.SrvErr, c.NilAt, c.Plugin, c.PCaps, c.PRevOK, c.Shape)
 		w.Add(my, term, c, key, nontriv)
 		w.Count("chain_len", fmt.Sprint(c.N))
 		w.Count("trust_anchor", []string{"root", "middle", "leaf"}[c.Anchor])
@@ -470,6 +505,7 @@ func runC05(a *Args) error {
 		w.Count("rejected", fmt.Sprint(c.Rejected))
 		w.Count("panicked", fmt.Sprint(c.Panic != ""))
 		w.Count("nil_entries", fmt.Sprint(len(c.NilAt) > 0))
+		w.Count("subject_shape", map[bool]string{true: "distinct", false: c.Shape}[c.Shape == ""])
 		if c.Plugin {
 			w.Count("plugin_capabilities", fmt.Sprint(c.PCaps))
 		} else {
@@ -566,7 +602,7 @@ func runC05(a *Args) error {
 	}
 	// 4. library default validator (no validator supplied): answer taken from the oracle
 	for n := 1; n <= 4; n++ {
-		e := getEnv(n)
+		e := getEnv(n, "")
 		if e.defRes == nil {
 			continue
 		}
@@ -811,6 +847,52 @@ func runC05(a *Args) error {
 						}
 						runCase(&c05Case{N: n, Format: Pick(rng, formats), SA: rng.Bool(), Action: act, Level: Pick(rng, levels), Val: val, Vec: an.vec, VErr: an.verr, NilAt: an.nilAt,
 							Anchor: rng.Intn(3), Plugin: true, PCaps: caps, PRevOK: rng.Intn(3) != 0})
+					}
+				}
+			}
+		}
+	}
+	// 12. subjects the verdict must not rest on: a certificate with an EMPTY subject DN at each position (leaf /
+	// intermediate / root), and two certificates with the SAME subject, crossed with revoked / unknown / other at that
+	// position (alone, and together with another non-OK result), under enforce and log, both interfaces. Pass iff all OK.
+	for n := 1; n <= 3; n++ {
+		var shapes []string
+		for k := 0; k < n; k++ {
+			shapes = append(shapes, fmt.Sprintf("e%d", k))
+		}
+		for i := 0; i < n; i++ {
+			for j := i + 1; j < n; j++ {
+				shapes = append(shapes, fmt.Sprintf("d%d%d", i, j))
+			}
+		}
+		for _, sh := range shapes {
+			pos := []int{int(sh[1] - '0')}
+			if sh[0] == 'd' {
+				pos = append(pos, int(sh[2]-'0'))
+			}
+			var vecs [][]int
+			vecs = append(vecs, make([]int, n))
+			for _, p := range pos {
+				for _, k := range []int{3, 2, 4} {
+					v := make([]int, n)
+					v[p] = k
+					vecs = append(vecs, v)
+					if n > 1 {
+						v2 := append([]int(nil), v...)
+						v2[(p+1)%n] = 2 + rng.Intn(2)
+						vecs = append(vecs, v2)
+					}
+				}
+			}
+			if n > 1 {
+				v := make([]int, n)
+				v[(pos[0]+1)%n] = 3 // revoked elsewhere, the special certificate OK
+				vecs = append(vecs, v)
+			}
+			for _, v := range vecs {
+				for _, act := range []string{"Enforce", "Log"} {
+					for _, val := range []int{1, 2} {
+						runCase(&c05Case{N: n, Shape: sh, Format: Pick(rng, formats), SA: rng.Bool(), Action: act, Level: Pick(rng, levels), Val: val, Vec: v, Method: rng.Intn(4), Anchor: rng.Intn(3)})
 					}
 				}
 			}
